@@ -54,6 +54,23 @@ impl Drop for Arena {
     }
 }
 
+/// Observe a builder that is still under construction: ask its size, write it, ask its padding.  The results
+/// are discarded (the same observation was recorded and judged when the script made it); what matters is that
+/// the instance the script goes on configuring HAS been observed at this point, exactly as in the script.
+pub fn probe<W: RtcpPacketWriter>(w: &W) {
+    let _ = guarded(|| {
+        if let Ok(n) = w.calculate_size() {
+            let mut buf = vec![0u8; n];
+            let _ = w.write_into(&mut buf);
+        }
+        let _ = w.get_padding();
+    });
+}
+/// positions (number of adds already made) at which a nested builder is observed
+fn probes_at(v: &Value, i: usize) -> bool {
+    v.get("probes").and_then(|p| p.as_array()).map(|a| a.iter().any(|x| x.as_u64() == Some(i as u64))).unwrap_or(false)
+}
+
 fn call_name(c: &Value) -> &str {
     c["c"].as_str().unwrap_or_else(|| tool_error(&format!("call without name: {c}")))
 }
@@ -96,6 +113,13 @@ pub fn make_item<'a>(arena: &'a Arena, calls: &Value) -> SdesItemBuilder<'a> {
                 m => tool_error(&format!("prefix mode {m}")),
             },
             "into_owned" => b.into_owned(),
+            "probe" => {
+                let _ = guarded(|| {
+                    let mut buf = vec![0u8; 600];
+                    let _ = b.write_into(&mut buf);
+                });
+                b
+            }
             other => tool_error(&format!("item call {other}")),
         };
     }
@@ -110,9 +134,21 @@ pub fn make_chunk<'a>(arena: &'a Arena, v: &Value) -> SdesChunkBuilder<'a> {
     } else {
         SdesChunk::builder(ssrc)
     };
-    for a in v["adds"].as_array().unwrap_or_else(|| tool_error("chunk adds")) {
+    let chunk_probe = |b: &SdesChunkBuilder<'a>| {
+        let _ = guarded(|| {
+            let mut buf = vec![0u8; 70000];
+            let _ = b.write_into(&mut buf);
+        });
+    };
+    if probes_at(v, 0) {
+        chunk_probe(&b);
+    }
+    for (i, a) in v["adds"].as_array().unwrap_or_else(|| tool_error("chunk adds")).iter().enumerate() {
         let item = make_item(arena, &a["item"]);
         b = if a["owned"].as_bool().unwrap_or(false) { b.add_item_owned(item) } else { b.add_item(item) };
+        if probes_at(v, i + 1) {
+            chunk_probe(&b);
+        }
     }
     b
 }
@@ -132,6 +168,10 @@ fn make_rpsi<'a>(arena: Option<&'a Arena>, cfg: &Value) -> RpsiBuilder<'a> {
                     (m, _) => tool_error(&format!("rpsi data mode {m}")),
                 }
             }
+            "probe" => {
+                probe(&b);
+                b
+            }
             other => tool_error(&format!("rpsi call {other}")),
         };
     }
@@ -142,22 +182,40 @@ pub fn make_fci<'a>(arena: Option<&'a Arena>, cfg: &Value) -> FciVal<'a> {
     match cfg["f"].as_str().unwrap_or_else(|| tool_error("fci.f")) {
         "nack" => {
             let mut b = Nack::builder();
-            for s in cfg["adds"].as_array().unwrap_or_else(|| tool_error("nack adds")) {
+            if probes_at(cfg, 0) {
+                probe(&b);
+            }
+            for (i, s) in cfg["adds"].as_array().unwrap_or_else(|| tool_error("nack adds")).iter().enumerate() {
                 b = b.add_rtp_sequence(u16_of(s));
+                if probes_at(cfg, i + 1) {
+                    probe(&b);
+                }
             }
             FciVal::Nack(b)
         }
         "fir" => {
             let mut b = Fir::builder();
-            for e in cfg["adds"].as_array().unwrap_or_else(|| tool_error("fir adds")) {
+            if probes_at(cfg, 0) {
+                probe(&b);
+            }
+            for (i, e) in cfg["adds"].as_array().unwrap_or_else(|| tool_error("fir adds")).iter().enumerate() {
                 b = b.add_ssrc(u32_of(&e[0]), u8_of(&e[1]));
+                if probes_at(cfg, i + 1) {
+                    probe(&b);
+                }
             }
             FciVal::Fir(b)
         }
         "sli" => {
             let mut b = Sli::builder();
-            for e in cfg["adds"].as_array().unwrap_or_else(|| tool_error("sli adds")) {
+            if probes_at(cfg, 0) {
+                probe(&b);
+            }
+            for (i, e) in cfg["adds"].as_array().unwrap_or_else(|| tool_error("sli adds")).iter().enumerate() {
                 b = b.add_lost_macroblock(u16_of(&e[0]), u16_of(&e[1]), u8_of(&e[2]));
+                if probes_at(cfg, i + 1) {
+                    probe(&b);
+                }
             }
             FciVal::Sli(b)
         }
@@ -199,6 +257,10 @@ macro_rules! fb_finish {
                 "padding" => b.padding(u8_of(&c["v"])),
                 "sender" => b.sender_ssrc(u32_of(&c["v"])),
                 "media" => b.media_ssrc(u32_of(&c["v"])),
+                "probe" => {
+                    probe(&b);
+                    b
+                }
                 other => tool_error(&format!("feedback call {other}")),
             };
         }
@@ -243,6 +305,7 @@ macro_rules! custom_builder {
                 "padding" => b.padding = u8_of(&c["v"]),
                 "count" => b.count = u8_of(&c["v"]),
                 "payload" => b.payload = $arena.b(&c["v"]),
+                "probe" => probe(&b),
                 other => tool_error(&format!("custom call {other}")),
             }
         }
@@ -271,6 +334,10 @@ pub fn build<'a, C: Consumer<'a>>(arena: &'a Arena, kind: &str, calls: &[Value],
                     "pkts" => b.packet_count(u32_of(&c["v"])),
                     "octets" => b.octet_count(u32_of(&c["v"])),
                     "add_rb" => b.add_report_block(make_rb(&c["v"])),
+                    "probe" => {
+                        probe(&b);
+                        b
+                    }
                     other => tool_error(&format!("sr call {other}")),
                 };
             }
@@ -282,6 +349,10 @@ pub fn build<'a, C: Consumer<'a>>(arena: &'a Arena, kind: &str, calls: &[Value],
                 b = match call_name(c) {
                     "padding" => b.padding(u8_of(&c["v"])),
                     "add_rb" => b.add_report_block(make_rb(&c["v"])),
+                    "probe" => {
+                        probe(&b);
+                        b
+                    }
                     other => tool_error(&format!("rr call {other}")),
                 };
             }
@@ -293,6 +364,10 @@ pub fn build<'a, C: Consumer<'a>>(arena: &'a Arena, kind: &str, calls: &[Value],
                 b = match call_name(c) {
                     "padding" => b.padding(u8_of(&c["v"])),
                     "add_chunk" => b.add_chunk(make_chunk(arena, &c["v"])),
+                    "probe" => {
+                        probe(&b);
+                        b
+                    }
                     other => tool_error(&format!("sdes call {other}")),
                 };
             }
@@ -311,6 +386,10 @@ pub fn build<'a, C: Consumer<'a>>(arena: &'a Arena, kind: &str, calls: &[Value],
                         "owned_string" => b.reason_owned(string_of(&c["v"])),
                         m => tool_error(&format!("reason mode {m}")),
                     },
+                    "probe" => {
+                        probe(&b);
+                        b
+                    }
                     other => tool_error(&format!("bye call {other}")),
                 };
             }
@@ -323,6 +402,10 @@ pub fn build<'a, C: Consumer<'a>>(arena: &'a Arena, kind: &str, calls: &[Value],
                     "padding" => b.padding(u8_of(&c["v"])),
                     "subtype" => b.subtype(u8_of(&c["v"])),
                     "data" => b.data(arena.b(c.get("big").unwrap_or(&c["v"]))),
+                    "probe" => {
+                        probe(&b);
+                        b
+                    }
                     other => tool_error(&format!("app call {other}")),
                 };
             }
@@ -340,6 +423,10 @@ pub fn build<'a, C: Consumer<'a>>(arena: &'a Arena, kind: &str, calls: &[Value],
                 b = match call_name(c) {
                     "padding" => b.padding(u8_of(&c["v"])),
                     "count" => b.count(u8_of(&c["v"])),
+                    "probe" => {
+                        probe(&b);
+                        b
+                    }
                     other => tool_error(&format!("unk call {other}")),
                 };
             }
@@ -368,6 +455,7 @@ pub fn build<'a, C: Consumer<'a>>(arena: &'a Arena, kind: &str, calls: &[Value],
                         let mpb = m.get("pb").and_then(|x| x.as_bool()).unwrap_or(false);
                         cb = build(arena, mk, mcalls, mpb, AddTo(cb));
                     }
+                    "probe" => probe(&cb),
                     other => tool_error(&format!("compound call {other}")),
                 }
             }
